@@ -20,7 +20,7 @@ def sendLoopStmt : Stmt :=
 
 theorem send_loop (cfg : Cfg) (hsub : cfg.isSub = Gen.C17.isSub) :
     ∀ (script : List Ev) (fuel : Nat) (env : Env) (data acc st : Bytes),
-      script.length + 1 ≤ fuel → env.lookup "data" = some (.bytes data) →
+      script.length + 1 ≤ fuel → env.lookup "p1" = some (.bytes data) →
       toSend (exec cfg sendLoopStmt fuel none env ⟨st, acc, script⟩) = some (sendLoop data acc script) := by
   intro script
   induction script with
@@ -40,14 +40,14 @@ theorem send_loop (cfg : Cfg) (hsub : cfg.isSub = Gen.C17.isSub) :
     | cons b bs =>
       cases ev with
       | deliver k =>
-        have := ih f (("data", Val.bytes (List.drop (min k (bs.length + 1)) (b :: bs))) ::
-          ("sent", Val.int ↑(min k (bs.length + 1))) :: env) (List.drop (min k (bs.length + 1)) (b :: bs))
+        have := ih f (("p1", Val.bytes (List.drop (min k (bs.length + 1)) (b :: bs))) ::
+          ("v2", Val.int ↑(min k (bs.length + 1))) :: env) (List.drop (min k (bs.length + 1)) (b :: bs))
           (acc ++ List.take (min k (bs.length + 1)) (b :: bs)) st hf' (by simp [List.lookup_cons])
         simp [sendLoopStmt, Gen.C17.sendData] at this
         simp [sendLoopStmt, Gen.C17.sendData, exec, truth, eval, henv, truthy, toSend, sendLoop, sys, List.lookup_cons]
         simpa [toSend] using this
       | retryable =>
-        have := ih f (("err", Val.errno true) :: ("x", Val.exc .osError true none) :: env) (b :: bs) acc st hf'
+        have := ih f (("v3", Val.errno true) :: ("v0", Val.exc .osError true none) :: env) (b :: bs) acc st hf'
           (by simp [List.lookup_cons, henv])
         simp [sendLoopStmt, Gen.C17.sendData] at this
         simp [sendLoopStmt, Gen.C17.sendData, exec, truth, eval, henv, truthy, toSend, sendLoop, sys, List.lookup_cons,
@@ -62,7 +62,7 @@ theorem send_loop (cfg : Cfg) (hsub : cfg.isSub = Gen.C17.isSub) :
       | partialFail k r =>
         cases r with
         | true =>
-          have := ih f (("err", Val.errno true) :: ("x", Val.exc .osError true none) :: env) (b :: bs) acc st hf'
+          have := ih f (("v3", Val.errno true) :: ("v0", Val.exc .osError true none) :: env) (b :: bs) acc st hf'
             (by simp [List.lookup_cons, henv])
           simp [sendLoopStmt, Gen.C17.sendData] at this
           simp [sendLoopStmt, Gen.C17.sendData, exec, truth, eval, henv, truthy, toSend, sendLoop, sys, List.lookup_cons,
@@ -86,7 +86,7 @@ theorem send_translated (cfg : Cfg) (hsub : cfg.isSub = Gen.C17.isSub) (data : B
   | false =>
     unfold runSend
     generalize hF : script.length + 2 = F
-    have := send_loop cfg hsub script F [("delays", .opaque), ("data", .bytes data)] data [] []
+    have := send_loop cfg hsub script F [("v1", .opaque), ("p1", .bytes data)] data [] []
       (by omega) (by simp [List.lookup_cons])
     simp [sendLoopStmt, Gen.C17.sendData] at this
     simp [Gen.C17.sendData, exec, truth, eval, truthy, SockIO.send, hb, List.lookup_cons]
@@ -185,9 +185,9 @@ def innerStmt : Stmt :=
   | _ => .skip
 
 structure EnvOK (env : Env) (size : Nat) (data : Bytes) : Prop where
-  hsize : env.lookup "size" = some (.int size)
-  hlen : env.lookup "msglen" = some (.int data.length)
-  hdata : env.lookup "data" = some (.bytes data)
+  hsize : env.lookup "p1" = some (.int size)
+  hlen : env.lookup "v1" = some (.int data.length)
+  hdata : env.lookup "v2" = some (.bytes data)
 
 def innerRes (r : InnerOut × Bytes × Bytes × List Ev) (env : Env) (sent : Bytes) : Res :=
   match r with
@@ -238,16 +238,16 @@ theorem inner_loop (cfg : Cfg) (size : Nat) :
       cases ev with
       | deliver k =>
         by_cases hc : (stream.take (min k (min recvCap (size - data.length)))).isEmpty
-        · refine ⟨("chunk", .bytes (stream.take (min k (min recvCap (size - data.length))))) :: env, ?_, ?_⟩
+        · refine ⟨("v3", .bytes (stream.take (min k (min recvCap (size - data.length))))) :: env, ?_, ?_⟩
           · simp only [innerSpec, h, if_true, hc]
             exact ⟨by simp [List.lookup_cons, ok.hsize], by simp [List.lookup_cons, ok.hlen], by simp [List.lookup_cons, ok.hdata]⟩
           · simp [innerStmt, oldStmt, Gen.C17.receiveData, exec, truth, eval, truthy, ok.hsize, ok.hlen, ok.hdata, innerSpec,
               innerRes, h, sys, cap_int size data.length h, hneg, hc, List.lookup_cons]
             exact drop_of_take_empty _ _ hc
         · obtain ⟨env', ok', he⟩ := ih f cur
-            (("msglen", .int ((data.length : Int) + ((stream.take (min k (min recvCap (size - data.length)))).length : Int))) ::
-              ("data", .bytes (data ++ stream.take (min k (min recvCap (size - data.length))))) ::
-              ("chunk", .bytes (stream.take (min k (min recvCap (size - data.length))))) :: env)
+            (("v1", .int ((data.length : Int) + ((stream.take (min k (min recvCap (size - data.length)))).length : Int))) ::
+              ("v2", .bytes (data ++ stream.take (min k (min recvCap (size - data.length))))) ::
+              ("v3", .bytes (stream.take (min k (min recvCap (size - data.length))))) :: env)
             (data ++ stream.take (min k (min recvCap (size - data.length))))
             (stream.drop (min k (min recvCap (size - data.length)))) sent hf'
             ⟨by simp [List.lookup_cons, ok.hsize], by simp [List.lookup_cons], by simp [List.lookup_cons]⟩
@@ -338,7 +338,7 @@ theorem old_loop_gen (cfg : Cfg) (hsub : cfg.isSub = Gen.C17.isSub) (size : Nat)
     | retry =>
       have hsc : sc.length < script.length := hlen.2 rfl
       have := ih sc.length (by omega) sc rfl f cur
-        (("err", Val.errno true) :: ("x", Val.exc .osError true none) :: env') d st sent (by omega)
+        (("v5", Val.errno true) :: ("v4", Val.exc .osError true none) :: env') d st sent (by omega)
         ⟨by simp [List.lookup_cons, ok'.hsize], by simp [List.lookup_cons, ok'.hlen], by simp [List.lookup_cons, ok'.hdata]⟩
       simp [oldRest, oldHandlers, oldStmt, Gen.C17.receiveData] at this
       simp [exec, truth, eval, truthy, he, innerRes, oldRest, oldHandlers, oldStmt, Gen.C17.receiveData, ok'.hsize,
@@ -445,8 +445,8 @@ theorem wait_loop (cfg : Cfg) (hsub : cfg.isSub = Gen.C17.isSub) (size : Nat) : 
         · simp [waitStmt, Gen.C17.receiveData, exec, truth, eval, truthy, ok.hsize, ok.hlen, ok.hdata, waitSpec, waitRes, sys,
             List.lookup_cons, hn, hk]
         · simp [waitSpec, hk]
-      · refine ⟨("data", .bytes (stream.take (min k size))) :: ("msglen", .int ((stream.take (min k size)).length : Int)) ::
-          ("chunk", .bytes (stream.take (min k size))) :: env, ?_, ?_⟩
+      · refine ⟨("v2", .bytes (stream.take (min k size))) :: ("v1", .int ((stream.take (min k size)).length : Int)) ::
+          ("v3", .bytes (stream.take (min k size))) :: env, ?_, ?_⟩
         · have hk' : ¬ (min k (min size stream.length) = size) := by simpa [List.length_take] using hk
           have hkI : (((min k (min size stream.length) : Nat) : Int) == (size : Int)) = false := by
             simp only [beq_eq_false_iff_ne, ne_eq, Int.natCast_inj]; exact hk'
@@ -456,7 +456,7 @@ theorem wait_loop (cfg : Cfg) (hsub : cfg.isSub = Gen.C17.isSub) (size : Nat) : 
           simp only [waitSpec, hk, if_false]
           exact ⟨by simp [List.lookup_cons, ok.hsize], by simp [List.lookup_cons], by simp [List.lookup_cons]⟩
     | retryable =>
-      obtain ⟨env', he, hok⟩ := ih f cur (("err", Val.errno true) :: ("x", Val.exc .osError true none) :: env) stream sent hf'
+      obtain ⟨env', he, hok⟩ := ih f cur (("v5", Val.errno true) :: ("v4", Val.exc .osError true none) :: env) stream sent hf'
         ⟨by simp [List.lookup_cons, ok.hsize], by simpa [List.lookup_cons] using ok.hlen, by simp [List.lookup_cons, ok.hdata]⟩
       refine ⟨env', ?_, ?_⟩
       · simp [waitStmt, Gen.C17.receiveData] at he
@@ -465,7 +465,7 @@ theorem wait_loop (cfg : Cfg) (hsub : cfg.isSub = Gen.C17.isSub) (size : Nat) : 
         exact he
       · simpa [waitSpec] using hok
     | fatal =>
-      refine ⟨("err", Val.errno false) :: ("x", Val.exc .osError false none) :: env, ?_, ?_⟩
+      refine ⟨("v5", Val.errno false) :: ("v4", Val.exc .osError false none) :: env, ?_, ?_⟩
       · simp [waitStmt, Gen.C17.receiveData, exec, truth, eval, truthy, ok.hsize, ok.hlen, ok.hdata, waitSpec, waitRes, sys,
           List.lookup_cons, hsub, Gen.C17.isSub, hn]
       · simp [waitSpec]
@@ -477,7 +477,7 @@ theorem wait_loop (cfg : Cfg) (hsub : cfg.isSub = Gen.C17.isSub) (size : Nat) : 
     | partialFail k r =>
       cases r with
       | true =>
-        obtain ⟨env', he, hok⟩ := ih f cur (("err", Val.errno true) :: ("x", Val.exc .osError true none) :: env) stream sent hf'
+        obtain ⟨env', he, hok⟩ := ih f cur (("v5", Val.errno true) :: ("v4", Val.exc .osError true none) :: env) stream sent hf'
           ⟨by simp [List.lookup_cons, ok.hsize], by simpa [List.lookup_cons] using ok.hlen, by simp [List.lookup_cons, ok.hdata]⟩
         refine ⟨env', ?_, ?_⟩
         · simp [waitStmt, Gen.C17.receiveData] at he
@@ -486,7 +486,7 @@ theorem wait_loop (cfg : Cfg) (hsub : cfg.isSub = Gen.C17.isSub) (size : Nat) : 
           exact he
         · simpa [waitSpec] using hok
       | false =>
-        refine ⟨("err", Val.errno false) :: ("x", Val.exc .osError false none) :: env, ?_, ?_⟩
+        refine ⟨("v5", Val.errno false) :: ("v4", Val.exc .osError false none) :: env, ?_, ?_⟩
         · simp [waitStmt, Gen.C17.receiveData, exec, truth, eval, truthy, ok.hsize, ok.hlen, ok.hdata, waitSpec, waitRes, sys,
           List.lookup_cons, hsub, Gen.C17.isSub, hn]
         · simp [waitSpec]
@@ -504,7 +504,7 @@ def waitCond : Expr :=
   | _ => .lit .none
 
 theorem receiveData_shape : Gen.C17.receiveData =
-    .try_ (.seq (.assign "delays" .delays) (.seq (.assign "msglen" (.lit (.int 0))) (.seq (.assign "data" .emptyBytes)
+    .try_ (.seq (.assign "v0" .delays) (.seq (.assign "v1" (.lit (.int 0))) (.seq (.assign "v2" .emptyBytes)
       (.seq (.ite waitCond waitStmt .skip) oldStmt)))) outerH := by
   rfl
 
@@ -532,12 +532,12 @@ def OldOK (cfg : Cfg) (size : Nat) (O : Stmt) : Prop :=
 
 theorem recv_gen (cfg : Cfg) (hsub : cfg.isSub = Gen.C17.isSub) (size : Nat) (W O : Stmt)
     (hW : WaitOK cfg size W) (hO : OldOK cfg size O) (stream : Bytes) (script : List Ev) :
-    toRecv (runRecv cfg (.try_ (.seq (.assign "delays" .delays) (.seq (.assign "msglen" (.lit (.int 0)))
-        (.seq (.assign "data" .emptyBytes) (.seq (.ite waitCond W .skip) O)))) outerH) size stream script)
+    toRecv (runRecv cfg (.try_ (.seq (.assign "v0" .delays) (.seq (.assign "v1" (.lit (.int 0)))
+        (.seq (.assign "v2" .emptyBytes) (.seq (.ite waitCond W .skip) O)))) outerH) size stream script)
       = some (SockIO.receive (cfg.useWaitall && !cfg.peercert) size stream script) := by
   unfold runRecv
   generalize hF : script.length + 2 = F
-  have okE : EnvOK [("data", .bytes []), ("msglen", .int 0), ("delays", .opaque), ("size", .int size)] size [] :=
+  have okE : EnvOK [("v2", .bytes []), ("v1", .int 0), ("v0", .opaque), ("p1", .int size)] size [] :=
     ⟨by simp [List.lookup_cons], by simp [List.lookup_cons], by simp [List.lookup_cons]⟩
   cases hw : (cfg.useWaitall && !cfg.peercert) with
   | false =>
